@@ -141,6 +141,13 @@ def xctor(ctx):
                         for foff in foffs:
                             for api in ("builder", "from_file", "build"):
                                 prog.append({"op": "build", "a": {"kind": kind, "api": api, "size": size, "flen": flen, "foff": foff, "fixed": fixed, "misalign": 0}})
+    # giving a mapping its guest range: bases around 2^64 - size (both builds)
+    wraps = []
+    for size in (1, 4095, 4096, 4097, 8192):
+        for gbase in (0, 4096, 1 << 63, U64 - size - 4096, U64 - size - 1, U64 - size, U64 - size + 1, U64 - 2, U64 - 1):
+            if 0 <= gbase < U64:
+                wraps.append({"op": "wrap", "a": {"size": size, "gbase": gbase}})
+    prog += wraps
     ev_unix = run_harness("ctor", prog, os.path.join(WORK, "ctor.ev.ndjson"), ctx=ctx)
     # Xen build: all 32 flag words x file / offset / size / device failures
     prog = []
@@ -156,13 +163,14 @@ def xctor(ctx):
                                 prog.append({"op": "from_range", "a": {"mflags": mflags, "file": file, "size": size, "flen": flen, "foff": foff,
                                                                        "fixed": fixed, "fail": fail, "base": 0, "defaults": (mflags + size) % 2 == 0,
                                                                        "badflags": False}})
+    prog += wraps
     ev_xen = run_harness("xctor", prog, os.path.join(WORK, "xctor.ev.ndjson"), pkg="vmh-xen", ctx=ctx)
     events = ev_unix + ev_xen
     mism = validate_trace(ctx, os.path.join(SPEC, "Trace_XenCtor.tla"), os.path.join(SPEC, "Trace_XenCtor.C15.cfg"), "tr_xenctor", events, timeout=1800)
     for m in mism:
         ev = events[m[0] - 1]
         ctx.mismatch({"module": "XenCtor", "tag": m[1], "op": ev["op"], "a": ev["a"], "r": ev["r"]},
-                     {"module": "ctor" if ev["op"] == "build" else "xctor", "pkg": "vmh" if ev["op"] == "build" else "vmh-xen",
+                     {"module": "ctor" if (m[0] <= len(ev_unix)) else "xctor", "pkg": "vmh" if (m[0] <= len(ev_unix)) else "vmh-xen",
                       "program": [{"op": ev["op"], "a": ev["a"]}], "expected": m[2], "observed": ev})
     ctx.cov["traces_validated_against_impl"] += len(events)
     ctx.cov["unix_rows"] = len(ev_unix)
